@@ -98,6 +98,9 @@ class Check:
                 if any(u['what'] == rep['qual'] for u in self.undecided):
                     self.notes.append(f"canary '{cn['name']}': function is undecided on this tree ({rep['error']}) - skipped"); continue
                 self.self_test(f"canary {cn['name']}", False, f"engine error on mutant: {rep['error']}"); continue
+            base_bad = any(v['engine'] == 'A' and (v['detail'] or {}).get('function') == rep['qual'] for v in self.violations)
+            if base_bad:
+                self.notes.append(f"canary '{cn['name']}': {rep['qual']} already violates the property on this tree - canary not judged"); continue
             failed = [r['name'] for r in rep['results'] if r['status'] == 'failed' and self.pid in r['props']]
             exp = cn.get('expect')
             hit = [f for f in failed if exp is None or exp in f]
